@@ -18,6 +18,7 @@ import (
 	"context"
 	"errors"
 	"fmt"
+	"math"
 	"time"
 
 	"github.com/attestantio/dirk/rules"
@@ -144,6 +145,16 @@ func (s *Service) runSignBeaconAttestationChecks(_ context.Context, metadata *ru
 			Uint64("sourceEpoch", sourceEpoch).
 			Uint64("targetEpoch", targetEpoch).
 			Msg("Request target epoch equal to or lower than request source epoch")
+
+		return rules.DENIED
+	}
+
+	// Epochs are stored as signed 64-bit values; larger epochs cannot be tracked so are not signed.
+	if sourceEpoch > math.MaxInt64 || targetEpoch > math.MaxInt64 {
+		log.Warn().
+			Uint64("sourceEpoch", sourceEpoch).
+			Uint64("targetEpoch", targetEpoch).
+			Msg("Request epoch too large")
 
 		return rules.DENIED
 	}
